@@ -8,7 +8,7 @@ PROPS="${*:-C01 C02 C03 C04 C05 C06 C07 C08 C09 C10 C11 C12 C13 C14 C15 C16 C17 
 cd /repo || exit 2
 if [ -n "$(git status --porcelain --untracked-files=no)" ]; then echo "/repo has local changes; refusing" >&2; exit 2; fi
 git apply "$PATCH" || { echo "patch does not apply" >&2; exit 2; }
-trap 'cd /repo && git checkout -- . ' EXIT
+trap 'cd /repo && git checkout -- . && cd /verif/harness && cargo build --quiet 2>/dev/null' EXIT
 cd /verif
 for p in $PROPS; do
   out=$(./check "$p" "$TIER" 2>&1); code=$?
